@@ -11,7 +11,9 @@ open Drv_tmpl
           finding_D7 ops            and the class is panic:breakcontinue
           finding_D8 ops failed t   and the class is panic:nil / execpanic:nil, where failed = the
                                     templates for which an earlier call returned escape:<code> and
-                                    t = the template the panicking call executes.
+                                    t = the template the panicking call executes;
+          finding_D40 ops k t       and the class is panic:nil / execpanic:nil: before op k a template
+                                    that t reaches was replaced by t.New(name) and the set was cloned.
    exec08 id <text> <name> <data> <outcome> <out> <parsed wire>
    cat08 / esc08 : contextAfterText / escapeText on the real code under recover + watchdog:
      totality, n <= len, progress, the invariant wf_ctx of the result, and correspondence.
@@ -44,6 +46,7 @@ let first_panic (f : string array) (base : int) : (int * string * string option)
              else if (res = "panic:nil" || res = "execpanic:nil") then
                (match target with
                 | Some t when V.finding_D8 ops !failed t -> Some "D8"
+                | Some t when V.finding_D40 ops (nat_of_int k) t -> Some "D40"
                 | _ -> None)
              else None in
            found := Some (k, res, fnd); raise Exit
